@@ -45,6 +45,34 @@ def replay_select(model, feature, m, op):
             "observed": {"rows": len(got)}, "expected": {"rows": len(want)}}
 
 
+def replay_renumber_objects(n=200):
+    """native search: interleaved objects in several tomograms, any starting number -- same number iff same (tomogram, object), numbers consecutive"""
+    rng = np.random.default_rng(8)
+    for k in range(n):
+        rows = random_motl_rows(rng, int(rng.integers(1, 30)), n_tomos=3, big_angles=False)
+        for r in rows:
+            r["object_id"] = float(rng.integers(1, 5) * 3)
+        start = int(rng.integers(1, 50)) if k % 2 else 1
+        m = motl_from_rows(rows)
+        _, e = call(m.renumber_objects_sequentially, start)
+        if e is not None:
+            return {"reproduced": True, "input": {"rows": len(rows), "start": start}, "observed": f"raised {type(e).__name__}: {e}"}
+        new = dict(zip(m.df["subtomo_id"].values, m.df["object_id"].values))
+        mp = {}
+        bad = None
+        for r in rows:
+            key = (r["tomo_id"], r["object_id"])
+            if mp.setdefault(key, new[r["subtomo_id"]]) != new[r["subtomo_id"]]:
+                bad = "one (tomogram, object) group got two numbers"
+        if bad is None and len(set(mp.values())) != len(mp):
+            bad = "two (tomogram, object) groups share a number"
+        if bad is None and sorted(mp.values()) != [float(i) for i in range(start, start + len(mp))]:
+            bad = "numbers not consecutive from the starting number"
+        if bad:
+            return {"reproduced": True, "input": {"tomo_object": [[r["tomo_id"], r["object_id"]] for r in rows], "start": start}, "observed": {"what": bad, "numbers": sorted(mp.values())}}
+    return {"reproduced": False, "input": f"{n} random lists", "observed": None}
+
+
 def _rows(df):
     return [tuple(float(v) for v in r) for r in df[MOTL_COLS].values]
 
